@@ -119,8 +119,10 @@ Old    == Tr.snaps[cur]                        \* the tree before this pass (mea
 New    == IF S.same THEN Old ELSE S            \* the tree after it
 IsLast == l + 1 = NSnaps
 Fresh  == ~S.same                              \* tree clauses need re-evaluation only when the tree changed
-C5     == CheckC05 /\ Fresh
-C5End  == CheckC05 /\ IsLast
+\* (after a recorded finding the tree of this trace is known to be damaged: later failures are its
+\*  consequence, the tree clauses are not applied to the rest of that trace)
+C5     == CheckC05 /\ Fresh /\ ~dev
+C5End  == CheckC05 /\ IsLast /\ ~dev
 \* after a recorded loss (dev) later losses can be its consequence (a section left without text is
 \* removed as empty): the word clauses are not applied to the rest of that trace
 C7     == CheckC07 /\ Tr.lossless /\ l >= 1 /\ Fresh /\ ~dev
